@@ -42,9 +42,11 @@ class Cls:
         return self.D.swap(self.ty(l), self.ty(r))
 
     def perm(self, p, dom):
+        # `p` is the caller's own list object, handed over as it is (no copy): the check looks
+        # at it again after the call and hands the same object to a second request
         if dom is None:
-            return self.D.permutation(list(p))
-        return self.D.permutation(list(p), self.ty(dom))
+            return self.D.permutation(p)
+        return self.D.permutation(p, self.ty(dom))
 
     def permute(self, p, dom):
         return self.D.id(self.ty(dom)).permute(*p)
@@ -309,7 +311,8 @@ def malformed_perm(rng, n):
 
 def build_cases(tier, rng, classes):
     """List of (class name, request).  Requests:
-         ("swap", l, r) | ("perm", p, dom | None) | ("permute", p, dom)"""
+         ("swap", l, r) | ("perm", p, dom | None [, share key]) | ("permute", p, dom)
+         | ("permute_box", p, dom, cod)"""
     quick = tier == "quick"
     cases = []
     max_exh = 5 if quick else 7
@@ -353,8 +356,15 @@ def build_cases(tier, rng, classes):
             p = list(range(n))
             crng.shuffle(p)
             cases.append((cls.name, ("perm", p, None)))
-        # permute
-        for _ in range(10 if quick else 100):
+        # permute: every permutation of 3 wires, a seeded sample of the non-involutive ones of
+        # 4 and 5 wires (where i -> p[i] and its inverse differ), and random ones
+        for p in all_perms(3):
+            cases.append((cls.name, ("permute", p, cls.distinct(3, crng))))
+        for n in (4, 5):
+            pool = [p for p in all_perms(n) if not involutive(p)]
+            for p in crng.sample(pool, min(len(pool), 4 if quick else 30)):
+                cases.append((cls.name, ("permute", p, cls.distinct(n, crng))))
+        for _ in range(6 if quick else 100):
             n = crng.randint(0, 6)
             p = list(range(n))
             crng.shuffle(p)
@@ -366,6 +376,9 @@ def build_cases(tier, rng, classes):
                 n = crng.randint(1, 5)
                 p = list(range(n))
                 crng.shuffle(p)
+                if k % 3 == 0:                     # cod == dom: non-involutive on >= 3 wires
+                    n = crng.randint(3, 5)
+                    p = crng.choice([q for q in all_perms(n) if not involutive(q)])
                 dom = cls.distinct(n, crng)
                 cod = list(dom)
                 if k % 3 == 1:
@@ -385,6 +398,25 @@ def build_cases(tier, rng, classes):
             if op == "perm" and k % 7 == 6 and why in ("dup", "range", "neg", "gap"):
                 dom = None                         # non-permutation with the default domain
             cases.append((cls.name, (op, p, dom)))
+    # one list object, two requests: the same Python list is handed to `permutation` of one
+    # class and then, untouched by the harness, to `permutation` of the next class (and once
+    # more to the first class) on other domains.  Each request is checked like any other
+    # against the permutation the caller wrote down.
+    prng = random.Random(rng.getrandbits(64))
+    for ci, cls in enumerate(classes):
+        other = classes[(ci + 1) % len(classes)]
+        for k in range(10 if quick else 120):
+            n = prng.randint(3, 6) if k % 5 else prng.randint(0, 2)
+            pool_ok = n >= 3
+            p = list(range(n))
+            prng.shuffle(p)
+            while pool_ok and involutive(p):
+                prng.shuffle(p)
+            share = "shared-%s-%d" % (cls.name, k)
+            cases.append((cls.name, ("perm", p, cls.distinct(n, prng), share)))
+            cases.append((other.name, ("perm", p, other.distinct(n, prng), share)))
+            dom3 = list(reversed(cls.distinct(n, prng)))
+            cases.append((cls.name, ("perm", p, dom3 if k % 2 else None, share)))
     return cases
 
 
@@ -410,12 +442,21 @@ def model_lines(cls, req):
             "wireperm " + tok_expr(("perm", p, dom)))
 
 
-def run_real(cls, req):
+def caller_list(req, shared):
+    """The list object the caller passes for this request: a fresh copy of the requested
+    permutation, or — for requests that name a share key — the one object created for the
+    first request of the group and reused, as the library left it, by the later ones."""
+    if len(req) > 3 and req[0] == "perm":
+        return shared.setdefault(req[3], list(req[1]))
+    return list(req[1])
+
+
+def run_real(cls, req, arg=None):
     op = req[0]
     if op == "swap":
         return cls.swap(req[1], req[2])
     if op == "perm":
-        return cls.perm(req[1], req[2])
+        return cls.perm(list(req[1]) if arg is None else arg, req[2])
     if op == "permute_box":
         return cls.permute_box(req[1], req[2], req[3])
     return cls.permute(req[1], req[2])
@@ -430,7 +471,10 @@ def run(tier, seed, replay=None):
                 "permutation of length <= %d (thorough, length 7, circuit: a seeded third) "
                 "plus random lengths <= 10, with pairwise distinct wire types where the class has "
                 "them (monoidal, rigid, tensor), in each of monoidal/rigid/tensor/circuit/zx; "
-                "~10%% malformed requests; non-trivial = a non-involutive permutation of length "
+                "~10%% malformed requests; every permutation() call receives the caller's list "
+                "object itself, which must read the same afterwards, and groups of three requests "
+                "(two classes, three domains) share ONE list object; permute() on all permutations "
+                "of 3 wires and non-involutive ones of 4-5 wires; non-trivial = a non-involutive permutation of length "
                 ">= 3, or a swap of widths >= 1 with >= 3 wires; distinct by (class, request)"
                 % ((5, 5) if quick else (6, 7)))
     rep.partial = []
@@ -446,6 +490,7 @@ def run(tier, seed, replay=None):
     by_name = {c.name: c for c in classes}
     cases = build_cases(tier, rng, classes)
     drv = Driver()
+    shared = {}
     try:
         lines = []
         for cname, req in cases:
@@ -455,23 +500,38 @@ def run(tier, seed, replay=None):
         for k, (cname, req) in enumerate(cases):
             cls = by_name[cname]
             model_eval, model_wires = answers[2 * k], answers[2 * k + 1]
-            check_case(rep, cls, req, lines[2 * k], model_eval, model_wires)
+            check_case(rep, cls, req, lines[2 * k], model_eval, model_wires, shared)
     finally:
         drv.close()
     return rep.finish()
 
 
-def check_case(rep, cls, req, line, model_eval, model_wires):
+def check_case(rep, cls, req, line, model_eval, model_wires, shared=None):
     op = req[0]
     case = dict(cls=cls.name, request=repr(req))
     key = cls.name + " " + line
     d, exc = None, None
+    arg, reused = None, False
+    if op == "perm":
+        shared = {} if shared is None else shared
+        reused = len(req) > 3 and req[3] in shared
+        arg = caller_list(req, shared)
+        if reused:
+            rep.count("perm_list_object_reused")
+            case["note"] = ("the caller's list object was already passed to an earlier "
+                            "permutation() call; it now reads %r" % (arg,))
     try:
-        d = run_real(cls, req)
+        d = run_real(cls, req, arg)
         real = "ok " + ser_diagram(d)
     except Exception as e:   # noqa: the class of the exception is the observation
         exc = e
         real = "err " + err_class(e)
+    if arg is not None and (type(arg) is not list or arg != list(req[1])):
+        # the request is the caller's value: once the library has rewritten it, the caller's
+        # next, identical request `permutation(perm, ...)` is no longer the one written down
+        rep.fail("request_list_mutated:" + cls.name, case,
+                 "permutation() changed the caller's list from %r to %r: the same request "
+                 "issued again does not get the requested permutation" % (list(req[1]), arg))
     rep.count("class:" + cls.name)
     rep.count("op:" + op)
     rep.count("result:" + (real.split(" ")[1] if exc is not None else "ok"))
@@ -589,3 +649,21 @@ def check_case(rep, cls, req, line, model_eval, model_wires):
                          "permutation (shape %r)" % (getattr(arr, "shape", None), exp.shape))
         except Exception as e:
             rep.fail("evaluation_raised:" + sig, case, repr(e)[:300])
+        # ---- oracle: the tensor-valued swap itself, `Tensor.swap(left, right)` (tensor.py:231),
+        # the block exchange as one array rather than as a diagram of adjacent swaps
+        if cls.name == "tensor" and op == "swap":
+            try:
+                t = cls.m.Tensor.swap(cls.ty(req[1]), cls.ty(req[2]))
+                got = exact_int_array(t.array)
+                rep.count("array_evaluated:Tensor.swap")
+                if exp.ndim == 0 and got is not None and got.size == 1:
+                    got = got.reshape(())
+                if t.dom != cls.ty(dom_spec) or t.cod != cls.ty(req[2] + req[1]):
+                    rep.fail("tensor_swap_type:tensor", case, "Tensor.swap has type %r -> %r" % (
+                        t.dom, t.cod))
+                elif got is None or got.shape != exp.shape or not (got == exp).all():
+                    rep.fail("tensor_swap_not_block_exchange:tensor", case,
+                             "Tensor.swap(left, right).array is not the 0/1 matrix that moves "
+                             "the wires of left, in order, to the right of those of right")
+            except Exception as e:
+                rep.fail("evaluation_raised:Tensor.swap", case, repr(e)[:300])
